@@ -1330,7 +1330,7 @@ def run_property(ctx, prop, n_random, exh_len, macro_len, parallel_share=0.0, n_
         items.append(('exhaustive', c))
     size = 12
     batches = [(prop, items[i:i + size]) for i in range(0, len(items), size)]
-    per_round = common.NCPU * 2
+    per_round = common.NCPU if ctx.tier == 'quick' else common.NCPU * 2
     done = 0
     for r0 in range(0, len(batches), per_round):
         if r0 > 0 and ctx.time_left() <= 0:
